@@ -57,22 +57,27 @@ def oracle(case):
     require(np.all(np.isfinite(C)), 'correlation contains non-finite entries', tag='finite')
     require(np.max(np.abs(C - C.T)) <= 1e-12, 'correlation not symmetric (%.3g)' % np.max(np.abs(C - C.T)), tag='symmetric')
     require(np.all(np.abs(C) <= 1 + 2 * EPS32), 'correlation entry outside [-1,1]: %r' % C[np.abs(C) > 1 + 2 * EPS32][:3], tag='range')
-    const = np.array([df[c].nunique() == 1 for c in names])
-    diag = np.diag(C)
-    require(np.all(np.abs(diag[~const] - 1) <= 2 * EPS32), 'diagonal of non-constant columns: %r' % diag[~const], tag='diagonal')
-    require(np.all(np.abs(diag[const]) <= 2 * EPS32), 'diagonal of constant columns: %r' % diag[const], tag='diagonal-constant')
-    if const.any():
-        off = C[const][:, :].copy()
-        off[:, const] = 0
-        require(np.all(off == 0) and np.all(C[:, const][~const] == 0), 'constant column correlated with another column', tag='constant-zero')
     w = np.linalg.eigvalsh((C + C.T) / 2)
     require(w.min() >= -1e-9, 'correlation not PSD: min eigenvalue %.3g' % w.min(), tag='psd')
-    # independent recomputation
+    # independent recomputation of the normal scores
+    const = np.array([df[c].nunique() == 1 for c in names])
     Z = np.empty((len(df), d))
     for k, (name, uni) in enumerate(zip(names, model.univariates)):
         u = np.asarray(value(uni.cdf, df[name].to_numpy(), what='univariate.cdf'), dtype=float)
         Z[:, k] = stats.norm.ppf(np.clip(u, EPS32, 1 - EPS32))
+    if not np.all(np.isfinite(Z)):
+        # a marginal whose CDF is NaN on its own training data (scipy MLE gone wrong): C03/C04 territory,
+        # Pearson of the scores is undefined -> precondition of this property not met
+        return {'nontrivial': False, 'classes': ['precondition:nan-marginal-cdf']}
     flat = np.ptp(Z, axis=0) == 0            # constant normal scores: correlation undefined -> 0
+    require(np.all(flat[const]), 'a constant column has non-constant normal scores', tag='constant-scores')
+    diag = np.diag(C)
+    require(np.all(np.abs(diag[~flat] - 1) <= 2 * EPS32), 'diagonal of columns with non-constant scores: %r' % diag[~flat], tag='diagonal')
+    require(np.all(np.abs(diag[flat]) <= 2 * EPS32), 'diagonal of constant columns: %r' % diag[flat], tag='diagonal-constant')
+    if flat.any():
+        off = C.copy()
+        np.fill_diagonal(off, 0)
+        require(np.all(off[flat, :] == 0) and np.all(off[:, flat] == 0), 'constant column correlated with another column', tag='constant-zero')
     with np.errstate(all='ignore'):
         mine = np.corrcoef(Z, rowvar=False)
     mine = np.nan_to_num(np.atleast_2d(mine), nan=0.0)
@@ -85,7 +90,7 @@ def oracle(case):
     require(ok, 'correlation differs from Pearson of normal scores by %.3g (with ridge %.3g, cond %.3g)' % (diff_plain, diff_ridge, cond),
             tag='recompute', detail={'cond': float(cond)})
     target(float(min(diff_plain, diff_ridge) / 1e-9), label='recompute err/tol')
-    must_regularise = cond > 1e17
+    must_regularise = bool(flat.any())       # exact zero row/column: singular in every arithmetic
     if must_regularise:
         require(w.min() >= 0.4 * EPS32, 'singular correlation (cond %.3g) was not regularised: min eigenvalue %.3g' % (cond, w.min()),
                 tag='not-regularised')
@@ -102,7 +107,7 @@ def oracle(case):
     require(np.all(finite_ok), 'sample(5) contains NaN / unexpected inf: %r' % vals[~finite_ok][:3], tag='sample-finite')
     pdf = np.asarray(value(model.probability_density, df.head(5), what='probability_density'), dtype=float)
     require(pdf.shape == (min(5, len(df)),) and np.all(np.isfinite(pdf)) and np.all(pdf >= 0), 'probability_density(head) = %r' % pdf, tag='pdf')
-    degenerate = cond > 1e12 or const.any()
+    degenerate = cond > 1e12 or flat.any()
     cls = ['d=%d' % d, 'config:' + case['config']['mode']]
     if cond > 1e15:
         cls.append('singular')
@@ -110,6 +115,8 @@ def oracle(case):
         cls.append('regularisation-required')
     if const.any():
         cls.append('constant-column')
+    if (flat & ~const).any():
+        cls.append('degenerate-fitted-marginal')
     for op in case['derived']:
         cls.append('derived:' + op['op'])
     return {'nontrivial': d >= 3 or bool(degenerate), 'classes': cls}
